@@ -260,12 +260,14 @@ def judge(items, checker, col=None):
     lines = HEADER.rstrip("\n").split("\n")
     for i, (ev, calls) in enumerate(items):
         lines += render_evaluator(f"ev{i}", ev)
-    lines.append("def caller(" + ", ".join(f"{n}: {DECLARE.get(n, t)}" for n, t in ARG_TYPES.items()) + ") -> None:")
+    lines.append("def caller(" + ", ".join(f"{n}: {DECLARE.get(n, t)}" for n, t in ARG_TYPES.items()) + ", p_kwany: Dict[str, Any]) -> None:")
     lmap = {}
     for i, (ev, calls) in enumerate(items):
         for j, call in enumerate(calls):
             pos = [call[nm][1] for nm, kind, t, d in ev["params"] if nm in call and call[nm][0] == "POSITIONAL"]
             kws = [f"{nm}={call[nm][1]}" for nm, kind, t, d in ev["params"] if nm in call and call[nm][0] == "KEYWORD"]
+            if "**" in call:
+                kws.append("**p_kwany")  # a mapping of unknown size
             lines.append(f"    r{i}_{j} = ev{i}({', '.join(pos + kws)})")
             lmap[len(lines)] = (i, j)
     src = "\n".join(lines) + "\n"
@@ -302,7 +304,16 @@ def judge(items, checker, col=None):
             if col is not None:
                 col.discarded += 1
             continue
-        typed_call = {nm: (k, ARG_TYPES[a]) for nm, (k, a) in call.items()}
+        typed_call = {nm: (k, ARG_TYPES[a]) for nm, (k, a) in call.items() if nm != "**"}
+        unknown_valued = set()
+        if "**" in call:
+            # docs/type_evaluation.md: a parameter that can be filled from **kwargs of unknown size is KEYWORD if
+            # it has no default and UNKNOWN (none of the three predicates holds) if it has one
+            for nm, kind, t, dflt in ev["params"]:
+                if nm not in typed_call:
+                    typed_call[nm] = ("KEYWORD", "Any") if dflt is None else ("UNKNOWN", "Any")
+                    if dflt is not None:
+                        unknown_valued.add(nm)
         # an Any (member of the) argument narrowed by is_of_type(..., exclude_any=False) becomes the
         # tested type; the specification does not say how *later* conditions on the same parameter see
         # it, so such an evaluator is only used when that condition is the parameter's only one
@@ -312,6 +323,11 @@ def judge(items, checker, col=None):
         for pn in any_params:
             mine = [c for c in all_conds if len(c) > 1 and c[1] == pn or (c[0] == "kind" and c[2] == pn)]
             if any(c[0] == "oftype" and not c[3] for c in mine) and len(mine) > 1:
+                ambiguous = True
+        for pn in unknown_valued:
+            # the value such a parameter has inside the evaluator (default or mapping value) is not specified:
+            # only evaluators that ask for its kind, not its value, are decided
+            if any(c[0] in ("oftype", "cmp") and c[1] == pn for c in all_conds):
                 ambiguous = True
         if ambiguous:
             if col is not None:
@@ -400,6 +416,10 @@ def call_strategy(draw, ev):
             keyword_mode = True
         else:
             call[nm] = ["POSITIONAL", a]
+    omitted = [p for p in ev["params"] if p[0] not in call]
+    if omitted and draw(st.booleans()):
+        # (with nothing left to fill, pyanalyze reports "**kwargs provided but not used")
+        call["**"] = ["DSTAR", "p_kwany"]
     return call
 
 
@@ -410,15 +430,53 @@ def item_strategy(draw):
     return ev, calls
 
 
+def exhaustive_items():
+    """One-parameter evaluators whose body is two consecutive `if` statements over type tests of the
+    parameter (with / without else, returning / erroring / falling through) and an optional final return,
+    called with union and plain arguments."""
+    import itertools as it
+
+    conds = [("oftype", "x", t, True) for t in ("int", "str", "None", "int | str")] + [("cmp", "x", "is", "None")]
+    first = [lambda c: ("if", [(c, [("return", "R0")])], None),
+             lambda c: ("if", [(c, [("return", "R0")])], [("return", "R1")]),
+             lambda c: ("if", [(c, [("error", "e0")])], None),
+             lambda c: ("if", [(c, [("pass",)])], [("return", "R1")])]
+    second = [lambda c: ("if", [(c, [("return", "R1")])], [("return", "R2")]),
+              lambda c: ("if", [(c, [("return", "R1")])], None),
+              lambda c: ("if", [(c, [("error", "e1")])], [("return", "R2")]),
+              lambda c: ("if", [(c, [("return", "R2")]), (("oftype", "x", "str", True), [("return", "R1")])], [("error", "e2")])]
+    calls = [{"x": ["POSITIONAL", a]} for a in ("p_u3", "p_u", "p_opt", "p_int", "p_none", "p_any_str")]
+    for f1, f2, c1, c2, tail in it.product(first, second, conds, conds, (None, "R3")):
+        body = trim([f1(c1), f2(c2)] + ([("return", tail)] if tail else []))
+        if f1(c1)[2] is not None and all(b and b[-1][0] == "return" for b in [f1(c1)[1][0][1], f1(c1)[2]]):
+            continue  # everything after an if/else whose branches all return is dead
+        yield {"params": [("x", "pk", "int | str | None", None)], "body": body, "ret": "R3" if tail is None else None}, calls
+
+
 def shards(tier, seed):
     n = 16
-    return [{"index": i, "modules": 25 if tier == "quick" else 600} for i in range(n)]
+    return [{"index": i, "modules": 60 if tier == "quick" else 800} for i in range(n)] + [{"mode": "exhaustive", "index": i, "of": 4} for i in range(4)]
 
 
 def run_shard(spec):
     col = runner.Collector(spec)
     seed = runner.mix_seed(spec["seed"], ID, spec["name"])
     checker = sut.new_checker()
+    if spec.get("mode") == "exhaustive":
+        batch = []
+        for k, item in enumerate(exhaustive_items()):
+            if k % spec["of"] != spec["index"]:
+                continue
+            batch.append(item)
+            if len(batch) == 25:
+                for key, what, case in judge(batch, checker, col):
+                    col.fail(key, what, case)
+                batch = []
+        if batch:
+            for key, what, case in judge(batch, checker, col):
+                col.fail(key, what, case)
+        col.extra["exhaustive_bounds"] = ["one-parameter evaluators with two consecutive if statements over 5 type tests x 4 x 4 branch layouts x optional final return, 6 argument types"]
+        return col.result()
 
     def make():
         @given(st.lists(item_strategy(), min_size=25, max_size=25))
